@@ -57,6 +57,10 @@ fn main() {
             std::process::exit(fw::worker_main(find(&args[1]), tier, &args[3..]));
         }
         "miri-cases" => {
+            if args.get(1).map(|s| s.eq_ignore_ascii_case("C11")).unwrap_or(false) {
+                print!("{}", props::c11::miri_list());
+                std::process::exit(0);
+            }
             let stride: usize = args.get(2).and_then(|s| s.parse().ok()).unwrap_or(1);
             std::process::exit(props::c01::miri_cases(stride));
         }
@@ -65,6 +69,7 @@ fn main() {
             let shard = (args.get(3).and_then(|s| s.parse().ok()).unwrap_or(0), args.get(4).and_then(|s| s.parse().ok()).unwrap_or(1));
             let rc = match args.get(1).map(|s| s.as_str()) {
                 Some("C01") | Some("c01") => props::c01::miri_main(args.get(2).map(|s| s.as_str()).unwrap_or(""), shard),
+                Some("C11") | Some("c11") => props::c11::miri_main(args.get(2).map(|s| s.as_str()).unwrap_or(""), shard),
                 _ => {
                     eprintln!("no Miri stage for this check");
                     2
